@@ -14,8 +14,9 @@ def crop_dir(root, name):
     return os.path.join(root, f".xyz-{name}")
 
 
-def record(kind="int", logfile=None, slow=None):
-    return functools.partial(models.record_fn, _xv=(kind, logfile, slow))
+def record(kind="int", logfile=None, slow=None, seeds=False):
+    return functools.partial(models.record_fn,
+                             _xv=(kind, logfile, slow, seeds))
 
 
 def batch_ids(root, name):
